@@ -99,6 +99,51 @@ fn one(rng: &mut Rng, sessions: &mut usize, byvalue: &mut usize) -> Result<(), S
     by_value(buf, rng, &mut hist, &mut next)
 }
 
+/// C07 / C08 for a stack buffer that is boxed by a by-value async split: once the last iterator is gone the box is released exactly once
+/// (hook events) and every item still inside is destroyed exactly once - in every drop order
+fn boxed_stack_release(rng: &mut Rng) -> Result<(), String> {
+    use std::rc::Rc;
+    use std::sync::{Arc, Mutex};
+    use mutringbuf::verif_hooks::{self, Event, Kind, Listener};
+    struct Frees(Mutex<(usize, usize)>);
+    impl Listener for Frees { fn before(&self, e: &Event) -> Option<usize> {
+        if e.kind == Kind::BufAlloc { self.0.lock().unwrap().0 += 1; } else if e.kind == Kind::BufFree { self.0.lock().unwrap().1 += 1; } None } }
+    let token = Rc::new(());
+    let three = rng.next(2) == 0;
+    let l = Arc::new(Frees(Mutex::new((0, 0))));
+    let hist;
+    {
+        let buf = ConcurrentStackRB::<Rc<()>, N>::from(core::array::from_fn(|_| token.clone()));
+        if Rc::strong_count(&token) != N + 1 { return Err("setup".into()); }
+        verif_hooks::set_listener(Some(l.clone()));
+        let mut order: Vec<usize> = if three { vec![0, 1, 2] } else { vec![0, 2] };
+        for i in (1..order.len()).rev() { let j = rng.next(i as u64 + 1) as usize; order.swap(i, j); }
+        hist = format!("ConcurrentStackRB::<Rc<()>, {}>::from(..).{}() then drops in order {:?}", N, if three { "split_mut_async" } else { "split_async" }, order);
+        if three {
+            let (p, w, c) = buf.split_mut_async();
+            let (mut p, mut w, mut c) = (Some(p), Some(w), Some(c));
+            for (n, k) in order.iter().enumerate() {
+                match k { 0 => drop(p.take()), 1 => drop(w.take()), _ => drop(c.take()) }
+                let (_, frees) = *l.0.lock().unwrap();
+                if n + 1 < order.len() && (frees != 0 || Rc::strong_count(&token) != N + 1) { verif_hooks::set_listener(None); return Err(format!("{}: the buffer or its items were released while an iterator was still alive", hist)); }
+            }
+        } else {
+            let (p, c) = buf.split_async();
+            let (mut p, mut c) = (Some(p), Some(c));
+            for (n, k) in order.iter().enumerate() {
+                match k { 0 => drop(p.take()), _ => drop(c.take()) }
+                let (_, frees) = *l.0.lock().unwrap();
+                if n + 1 < order.len() && (frees != 0 || Rc::strong_count(&token) != N + 1) { verif_hooks::set_listener(None); return Err(format!("{}: the buffer or its items were released while an iterator was still alive", hist)); }
+            }
+        }
+    }
+    verif_hooks::set_listener(None);
+    let (allocs, frees) = *l.0.lock().unwrap();
+    if allocs != 1 || frees != 1 { return Err(format!("{}: the boxed buffer was allocated {} time(s) and freed {} time(s) after its last iterator was dropped", hist, allocs, frees)); }
+    if Rc::strong_count(&token) != 1 { return Err(format!("{}: {} of its {} items were never destroyed", hist, Rc::strong_count(&token) - 1, N)); }
+    Ok(())
+}
+
 fn main() {
     let a: Vec<String> = std::env::args().collect();
     let seed: u64 = a.get(1).and_then(|x| x.parse().ok()).unwrap_or(1);
@@ -107,6 +152,10 @@ fn main() {
     let (mut sessions, mut byvalue) = (0usize, 0usize);
     for _ in 0..count {
         if let Err(w) = one(&mut rng, &mut sessions, &mut byvalue) { println!("MISMATCH {}", w); std::process::exit(1); }
+    }
+    for _ in 0..24 {
+        if let Err(w) = boxed_stack_release(&mut rng) { println!("MISMATCH {}", w); std::process::exit(1); }
+        sessions += 1;
     }
     println!("ok sessions={} byvalue={}", sessions, byvalue);
 }
